@@ -184,9 +184,6 @@ func (w *WaitGroup) Add(d int) {
 		w.real.Add(d)
 		return
 	}
-	if d < 0 {
-		raceReleaseMerge(unsafe.Pointer(w))
-	}
 	n := w.n.Add(int64(d))
 	if n < 0 {
 		panic("simsync: negative WaitGroup counter")
@@ -195,8 +192,15 @@ func (w *WaitGroup) Add(d int) {
 		if h := WGZeroHook; h != nil {
 			h(w)
 		}
-		simrt.Wake(uintptr(unsafe.Pointer(w)))
 		w.mode.Store(0)
+	}
+	if d < 0 {
+		// Done happens-before the Wait it unblocks (re-emitted for the race
+		// detector after the last write this call makes to the object).
+		raceReleaseMerge(unsafe.Pointer(w))
+	}
+	if n == 0 {
+		simrt.Wake(uintptr(unsafe.Pointer(w)))
 	}
 	if d < 0 {
 		simrt.Yield("wgdone")
